@@ -24,10 +24,19 @@ with `observe` (property C16):
 
 Heap: objects with a final scalar (`value`, `aux`; their contents are not
 modelled, a probe is "the scalar changed"), `child : Instance`,
-`kids : List(Instance)`, `byname : Dict(_, Instance)`.  Every object a container change
+`kids : List(Instance)`, `byname : Dict(_, Instance)`, `group : Set(Instance)`.  Every object a container change
 adds is freshly allocated (`Heap.next`) or was in that same container before the change
 (reverse / sort / rotation, reassignments that carry objects over): every object stays
 referenced from at most one place.
+
+Source tie: `register`, `unregister`, `linkHooks` / `finalHooks` and the handler scripts of
+`mutate` are proved equal to the interpretation (`Model/LisL.lean`) of the translated source
+(`Generated/LegacyProg.lean`, harness/translate/legacysrc.py): Props/C16.lean
+`C16_register_is_source`, `C16_handle_is_source`, `C16_handler_table`, `C16_guards_are_source`,
+`C16_deferred_is_source`, `C16_dst_table`.
+
+Set links (`group`): `_register_set = _register_list`, `TraitSetEvent.removed / added` duck-type
+`TraitListEvent`; detached containers (`Op.stray`).
 
 Not modelled (outside the common fragment): wildcards / metadata / `?` / `*`
 names, ListenerGroup, DST handlers (1- and 2-argument signatures, `handle_dst`,
@@ -45,7 +54,7 @@ namespace TraitsVerif.Model.Legacy
 /-- Link attributes; the container kind is a function of the attribute
 (`trait.handler.default_value_type`, traits_listener.py:421-426). -/
 inductive Attr where
-  | child | kids | byname
+  | child | kids | byname | group
   deriving DecidableEq, Repr
 
 /-- Final scalar attributes. -/
@@ -79,6 +88,9 @@ structure Obj where
   child : Option Nat := none
   kids : List Nat := []
   byname : List (Nat × Nat) := []
+  /-- `group : Set(Instance)`: the members in insertion order (a set has no order; nothing
+  observable depends on it: the driver prints `active` sorted, calls per object) -/
+  group : List Nat := []
   deriving Repr
 
 structure Heap where
@@ -98,6 +110,7 @@ def targets (h : Heap) (a : Attr) (o : Nat) : List Nat :=
   | .child => (h.obj o).child.toList
   | .kids => (h.obj o).kids
   | .byname => (h.obj o).byname.map (·.2)
+  | .group => (h.obj o).group
 
 def Heap.setObj (h : Heap) (o : Nat) (x : Obj) : Heap :=
   { h with obj := fun i => if i = o then x else h.obj i }
@@ -273,6 +286,15 @@ inductive Op where
       -- in place (`kids.reverse()`, `kids.sort(...)`, `kids[:] = …`) or by reassignment
       -- (`o.kids = o.kids[1:] + [N()]`, `o.kids = list(reversed(o.kids))`)
   | dictCarry (o d : Nat)                     -- o.byname = dict(reversed(list(o.byname.items())[d:]))
+  | setGroup (o : Nat) (n : Nat)               -- o.group = {N() …}
+  | gsplice (o : Nat) (i j n : Nat)
+      -- ONE TraitSetEvent: the members at positions i..j-1 (insertion order) leave, n fresh ones arrive:
+      -- add / remove / discard / pop / clear / `-=` / `|=` / `^=` (symmetric_difference_update) are instances
+  | stray (n : Nat)
+      -- n fresh objects are put into a DETACHED container (a list / dict / set the caller still
+      -- holds after the link was reassigned): they are allocated and referenced from nowhere in
+      -- the graph; a detached container sends no `<name>_items` event
+      -- (TraitListObject / TraitDictObject / TraitSetObject.notifier: `getattr(object, self.name) is not self`)
   | probe (o : Nat) (f : Final)                -- o.value += 1
   | reg                                       -- root.on_trait_change(handler, name)
   | unreg                                     -- root.on_trait_change(handler, name, remove=True)
@@ -417,6 +439,25 @@ def mutate (h : Heap) : Op → Option Mut
       some ⟨h', o, .link .byname, unregAll (dct.map (·.2)) ++ regAll (d'.map (·.2)),
             decide (0 < min d dct.length)⟩
     else none
+  | .setGroup o n =>
+    if o < h.next then
+      let olds := targets h .group o
+      let news := freshIds h n
+      let h' := (h.setObj o { h.obj o with group := news }).bump n
+      -- _register_set = _register_list: handle_list(old, new)
+      some ⟨h', o, .link .group, unregAll olds ++ regAll news, !(olds.isEmpty && news.isEmpty)⟩
+    else none
+  | .gsplice o i j n =>
+    if o < h.next ∧ i ≤ j ∧ j ≤ (h.obj o).group.length then
+      let g := (h.obj o).group
+      let olds := (g.drop i).take (j - i)
+      let news := freshIds h n
+      let h' := (h.setObj o { h.obj o with group := g.take i ++ news ++ g.drop j }).bump n
+      -- handle_list_items: handle_list(event.removed, event.added) (TraitSetEvent duck-types TraitListEvent)
+      some ⟨h', o, .items .group, unregAll olds ++ regAll news, !(olds.isEmpty && news.isEmpty)⟩
+    else none
+  | .stray n =>
+    some ⟨(h.setObj root (h.obj root)).bump n, root, .link .child, [], false⟩
   | .probe o f =>
     if o < h.next then some ⟨h, o, .final f, [], true⟩ else none
   | .reg => none
